@@ -30,7 +30,7 @@ ASSUMPTIONS = [
     'd + None, d + 0, None + d, sum([d]) and dictable.concat(d) may return the operand itself; the result is then treated as the same table, not as a copy',
     'rows given with headers all have exactly one cell per header; the header-in-first-row form has at least one data row (header only raises ValueError: no length to infer)',
     'd[[]] is read as "no rows" (documented by tests/test_dictable.py::test_dictable_getitem), so column projections d[[cols]] and d & cols keep at least one column; '
-    'd & cols with an EMPTY intersection keeps every column instead of none (reported as a finding, excluded by construction: arg allow_empty is never generated True)',
+    'd & cols with an empty intersection is the table without columns (and so without rows): fixed in /repo (was: kept every column), now generated',
     'rename/relabel targets are fresh names (no collisions); the list form d.rename([names]) is used for >= 2 columns only (one name is ambiguous with the prefix/suffix string form)',
     'slice steps are non-zero; integer indices are within [-len, len); boolean masks have full length; misfit lengths are neither len(d) nor 1',
     'functions used for derived columns / do() are total on the cell universe and return cells of the universe; do() with a function of (value, other) never transforms "other" itself',
@@ -196,7 +196,7 @@ class Tables(object):
                      form=st.sampled_from(['list', 'list', 'array'])),
         'take': dict(t=_t, idx=st.lists(st.integers(-30, 30), max_size=6), form=st.sampled_from(['list', 'list', 'array', 'range'])),
         'project': dict(t=_t, cols=st.lists(_ci, min_size=1, max_size=3), form=st.sampled_from(['list', 'tuple', 'and', 'and_extra', 'and_str', 'keys']),
-                        allow_empty=st.just(False)),
+                        allow_empty=st.sampled_from([False, False, False, True])),
         'minus': dict(t=_t, cols=st.lists(_ci, min_size=1, max_size=3), form=st.sampled_from(['str', 'list', 'list_extra', 'missing'])),
         'filter': dict(t=_t, col=_ci, pick=st.integers(0, 30), v=_cell, use_v=st.booleans(), form=st.sampled_from(['inc', 'exc', 'inc_list', 'exc_list', 'inc_dict'])),
         # ---- derived columns, renaming, per-column transforms
